@@ -306,7 +306,7 @@ pub fn run(tier: Tier, seed: u64) -> i32 {
         let mut hp2 = prop();
         hp2.run_cfg.flush_each = false;
         hp2.gen_cfg.max_ops = 40;
-        hp2.gen_cfg.weights = vec![(K::NewFileWritten, 10), (K::OpenFile, 8), (K::CreateFile, 6), (K::Write, 26), (K::Tick, 22), (K::SetTimes, 10), (K::CloseFile, 9), (K::Flush, 4), (K::Seek, 6), (K::Read, 5), (K::Truncate, 3), (K::Rename, 4), (K::Remount, 2), (K::List, 1)];
+        hp2.gen_cfg.weights = vec![(K::NewFileWritten, 10), (K::OpenFile, 8), (K::CreateFile, 6), (K::Write, 26), (K::Tick, 22), (K::SetTimes, 10), (K::CloseFile, 9), (K::Flush, 4), (K::FlushRetry, 6), (K::CloneSwap, 2), (K::Seek, 6), (K::Read, 5), (K::Truncate, 3), (K::Rename, 4), (K::Remount, 2), (K::List, 1)];
         rep.add(hist::random_block(&hp2, "stamping_deferred_writeback_histories", seed ^ 0x18, tier.pick(8000, 120000)));
     }
     rep.finish()
